@@ -11,6 +11,7 @@ import (
 
 	"pv/internal/lin"
 	"pv/internal/load"
+	"pv/internal/own"
 	"pv/internal/report"
 	"pv/internal/ssax"
 )
@@ -161,6 +162,66 @@ func (c *Ctx) ruleW0(rule string) {
 	for k := range allowed {
 		if seen[k] == 0 && k != "Reader."+m.ReaderCache {
 			c.R.Fail("coverage-lost", rule, "no writer of "+k, "-", "-", "no store to text."+k+" found at all: the anchor moved")
+		}
+	}
+	// the content is the constructor's own copy, and nothing reachable from parse-time code writes into it
+	a := c.Own()
+	if nf := c.P.Func("text.NewFile"); nf != nil {
+		for _, b := range nf.Blocks {
+			for _, in := range b.Instrs {
+				st, ok := in.(*ssa.Store)
+				if !ok {
+					continue
+				}
+				fa, ok := st.Addr.(*ssa.FieldAddr)
+				if !ok || fieldVar(fa).Name() != m.Data {
+					continue
+				}
+				var alias []string
+				for o := range a.Info[nf].Origins(st.Val) {
+					if o.Root.K != own.RFresh && o.Root.K != own.RExtern {
+						alias = append(alias, o.String())
+					}
+				}
+				if len(alias) == 0 {
+					c.R.Hold(rule, "text.NewFile content", "a fresh copy of the argument")
+				} else {
+					c.R.Violation(rule, "text.NewFile aliases its argument", "text.NewFile", c.P.InstrPos(st), "the file content may be the caller's own slice ("+strings.Join(alias, ", ")+") instead of a copy: a caller reusing its buffer changes the file under every reader")
+				}
+			}
+		}
+	}
+	for _, fn := range c.P.LibFuncs {
+		if fn.Synthetic != "" || isInit(fn) {
+			continue
+		}
+		for _, e := range a.Info[fn].SortedEffects() {
+			if e.Root.K == own.RFresh || e.In != fn && len(e.Chain) == 0 {
+				continue
+			}
+			if !strings.HasSuffix(e.Path, "."+m.Data+"[]") {
+				continue
+			}
+			// the file content is a byte slice (other types have fields of the same name)
+			isBytes := false
+			if e.ElemOf != nil {
+				if sl, ok := e.ElemOf.Underlying().(*types.Slice); ok {
+					if bt, ok := sl.Elem().Underlying().(*types.Basic); ok && bt.Kind() == types.Uint8 {
+						isBytes = true
+					}
+				}
+			}
+			if !isBytes {
+				continue
+			}
+			if len(e.Chain) > 0 {
+				// reported where the write enters through a call chain: only at the outermost function that owns the path
+				if c.S.Internal(fn) {
+					continue
+				}
+			}
+			c.R.Violation(rule, c.name(fn)+" writes file content", c.name(fn), c.P.InstrPos(e.Instr), "bytes of the file content are overwritten after construction ("+a.Describe(e)+"): a later read of the same bytes sees corrupted input")
+			break
 		}
 	}
 	// setLines only under lines == nil
